@@ -23,6 +23,14 @@ CHECKS = {
             "each is executed and compared; larger random tables in all input forms are decided by the trace specification.",
             "Trusted: TLC; integer-valued results are compared for equality; counts stay inside the dtype range.",
             "DESIGN.md §5 C18"),
+    "C15": (["CodecOps", "Codec", "Codec_Trace"],
+            "TLA+ spec (CodecOps/Codec) model-checked with TLC incl. the algebraic laws (round trip, involution, form agreement, "
+            "chunk/unchunk covering) as invariants; all enumerated calls replayed into tangermeme.utils; random calls validated "
+            "against Codec_Trace",
+            "TLC enumerates all short strings/alphabets/ignore sets, all involutive complement maps, and all (size, overlap, chunk "
+            "count, remainder) combinations incl. exactly one chunk; each is executed and compared with the specified conversion.",
+            "Trusted: TLC; chunking is observed through position-coded tensors; tensors abstracted to symbol sequences.",
+            "DESIGN.md §5 C15"),
 }
 
 ALL = ["C%02d" % i for i in range(1, 21)]
